@@ -34,6 +34,19 @@ claim("C01",
       "Lean 4 proof (escape sufficiency vs a CommonMark block-start SPEC; renderer state invariants by functional induction) "
       "+ render-model correspondence + AST-equivalence oracle",
       "DESIGN.md §7 C01")
+claim("C04",
+      "Lean theorems on the render and transform models: FENCE_SAFE (for every code content and fence character, no "
+      "content line can close the emitted fence: its fence-like run is strictly shorter than max(original, "
+      "minFenceLength)), FENCE_KEEPS_LENGTH, REWRITE_CONFINED / WRITEBACK_CONFINED (rewrite_text_content and "
+      "rewrite_text_across_inlines change RawText payloads only, for every rewrite function — by mutual structural "
+      "induction over the inline tree), DEST_VERBATIM, SPAN_VERBATIM. Ties: render model and transform models (smart "
+      "quotes / ellipses / cleanups applied to Marko trees) vs the real code. Oracle: one extractor of code blocks, code "
+      "spans, tags, comments, HTML, URLs, destinations/titles, labels applied to parse(x) and parse(fmt(x)); special "
+      "code/URL documents × the full 48-point option product, generated documents × sampled option sets.",
+      COMMON_NOTE + "Which strings are template tags is TEMPLATE_TAG_PATTERN's business (scanner ties in C06/C08); Marko is the "
+      "reader on both sides of the oracle.",
+      "Lean 4 proof (fence-length bound; confinement by structural induction) + render/transform correspondence + extractor oracle",
+      "DESIGN.md §7 C04")
 claim("C05",
       "Lean theorems for all word lists/widths/columns (LOSSLESS as a line partition with escapes only at wrapped line "
       "heads, NONEMPTY, BOUND from true columns, MAXIMAL, NOWRAP) about an exact model of wrap_paragraph_lines / "
